@@ -26,13 +26,13 @@ BUILT = {
  "C04": dict(
    technique="exhaustive enumeration of all (from,to) windows for fixed configurations + proptest model-based histories (scope calls, chains) against the unscoped run and against the enumeration model; thorough: coverage-guided libFuzzer target fz_eval",
    category="exploration",
-   text="For 2 (quick) / 6 (thorough) fixed configurations every one of the 693,253 ordered windows from <= to over the 1177 positions is generated and the scoped run compared, position by position, with the unscoped run's window, with three further next() calls after exhaustion. Generated histories over small random configurations add repeated scope() calls (last wins), windows biased to row edges/terminal/empty, chains of 0-63 cuts whose concatenation must equal the full run, short windows compared directly with the enumeration model restricted to the window, and prefixes of windows over configurations too large to drain (> 2^32 odometer slots). The scoped runs of the histories are also consumed through nth()/skip()/step_by()/count()/last()/collect() and compared with their next() sequence.",
+   text="For 2 (quick) / 6 (thorough) fixed configurations every one of the 693,253 ordered windows from <= to over the 1177 positions is generated and the scoped run compared, position by position, with the unscoped run's window, with three further next() calls after exhaustion. Generated histories over small random configurations add repeated scope() calls (last wins), windows biased to row edges/terminal/empty, chains of 0-63 cuts whose concatenation must equal the full run, short windows compared directly with the enumeration model restricted to the window, and prefixes of windows over configurations too large to drain (> 2^32 odometer slots). The scoped runs of the histories are also consumed through nth()/skip()/step_by()/count()/last()/collect() and compared with their next() sequence. Half of the chains build every link's iterator before the first is drained and keep an evaluator on another flop alive on the thread meanwhile.",
    note="Trusted: the unscoped run of the same build as reference (C02 decides that it is the right enumeration); 64-bit showdown fingerprints. Only valid positions with from <= to are generated.",
    ref="DESIGN.md section 4 (C04)"),
  "C05": dict(
    technique="exhaustive enumeration of all 3,796 well-formed tokens x weight literals + proptest token lists, differential against an independent notation model",
    category="exploration",
-   text="Every well-formed token (all ranks, rank pairs in either order, spans, ordered card pairs) x 8 (quick) / 19 (thorough) weight literals - among them literals a hair off the midpoint of two neighbouring f32 values - must parse and expand to exactly the combo set the model derives from the poker meaning of the notation, each combo once, at the literal's value; generated lists of 0-12/40 tokens over a small rank palette (frequent overlaps with different weights), optional spaces, the empty and all-space strings, lists of up to 320 tokens and lists that first cover all 1326 combos and then override parts must parse to the model's sequential-insert map with bit-identical weights and one entry per combo. Generated literals include exact f32 midpoints moved a hair up or down (45-50 digits).",
+   text="Every well-formed token (all ranks, rank pairs in either order, spans, ordered card pairs) x 8 (quick) / 19 (thorough) weight literals - among them literals a hair off the midpoint of two neighbouring f32 values - must parse and expand to exactly the combo set the model derives from the poker meaning of the notation, each combo once, at the literal's value; generated lists of 0-12/40 tokens over a small rank palette (frequent overlaps with different weights), optional spaces, the empty and all-space strings, lists of up to 320 tokens and lists that first cover all 1326 combos and then override parts must parse to the model's sequential-insert map with bit-identical weights and one entry per combo. Generated literals include exact f32 midpoints moved a hair up or down (45-50 digits). Long parse histories on one thread (related texts 255-257 and 65,534-65,537 parses apart) check independence of earlier parses.",
    note="Trusted: the harness's token AST/expander (notation.rs) and std's f32 parser for literal values. Lists are sampled.",
    ref="DESIGN.md section 4 (C05)"),
  "C06": dict(
@@ -56,25 +56,25 @@ BUILT = {
  "C09": dict(
    technique="exhaustive short-string and token-shape enumeration + proptest mutation/junk/over-long generators, crash oracle (catch_unwind) with follow-up use of every parsed value",
    category="exploration",
-   text="Every string of length <= 3 (thorough 4) over the notation alphabet extended by 2-, 3- and 4-byte characters, every string matching one of the seven token shapes with arbitrary ranks (and all 52x52 card-pair texts), plus generated mutated notation, mixed junk lists, every single/double substitution of a notation character by a Unicode look-alike (digits of other scripts, full-width forms, Kelvin sign, long s), arbitrary Unicode, weight literals and over-long inputs (lengths around powers of two) go through all six parsers under catch_unwind; every Ok value is formatted, expanded, decomposed and drained through the evaluator (to the very end, beside other players, at non-adjacent seats). size_hint() is asked before, during and after every drain, and a full table of ten and of six copies of each parsed range is built and asked for its size hint. Any panic is a violation. A libFuzzer target with the same oracle extends the thorough tier.",
+   text="Every string of length <= 3 (thorough 4) over the notation alphabet extended by 2-, 3- and 4-byte characters, every string matching one of the seven token shapes with arbitrary ranks (and all 52x52 card-pair texts), plus generated mutated notation, mixed junk lists, every single/double substitution of a notation character by a Unicode look-alike (digits of other scripts, full-width forms, Kelvin sign, long s), arbitrary Unicode, weight literals and over-long inputs (lengths around powers of two) go through all six parsers under catch_unwind; every Ok value is formatted, expanded, decomposed and drained through the evaluator (to the very end, beside other players, at non-adjacent seats). size_hint() is asked before, during and after every drain, and a full table of ten and of six copies of each parsed range is built and asked for its size hint. Every parsed value is also formatted through eleven width/alignment/fill/precision specifications (only 'returns' is demanded). Any panic is a violation. A libFuzzer target with the same oracle extends the thorough tier.",
    note="Totality over all strings cannot be established by testing; the finite slices named by the property are covered completely. Evaluator hand-off is restricted to the first positions (cost).",
    ref="DESIGN.md section 4 (C09)"),
  "C10": dict(
    technique="same string generators as C09 + exhaustive weight-literal grammar up to 3 digits, invariant oracle over parsed values and over showdowns computed from them",
    category="exploration",
-   text="For every Ok card pair / token / range obtained from the generated strings (all token-shape strings incl. equal-card pairs, every literal [01](.d{1,3})? on each token shape, generated long literals, mutated notation, junk lists) each combo must have two different cards and a weight in [0,1]; evaluator runs over the parsed ranges must yield probabilities in [0,1] and no duplicate card.",
+   text="For every Ok card pair / token / range obtained from the generated strings (all token-shape strings incl. equal-card pairs, every literal [01](.d{1,3})? on each token shape, generated long literals, numbers in other notations after the colon - percent, exponent, sign, suffix, fraction, radix, values inside and outside [0,1] -, mutated notation, junk lists) each combo must have two different cards and a weight in [0,1]; evaluator runs over the parsed ranges must yield probabilities in [0,1] and no duplicate card.",
    note="Panics are C09's subject and skipped here. Weight literals beyond 3 fraction digits are sampled.",
    ref="DESIGN.md section 4 (C10)"),
  "C11": dict(
    technique="proptest metamorphic testing (suit relabelling, player permutation) over integer win/tie tallies",
    category="exploration",
-   text="Generated suit-asymmetric configurations (flush-prone flops, single-suit ranges, pools, a mirrored player for ties, >255-combo ranges beside narrow ones) are evaluated three times: as given, with one of the 23 non-identity suit permutations applied to flop and ranges, and with the players permuted; integer tallies wins[player][k-way] must be equal resp. permuted, and in every showdown flagged winners == winner_len >= 1. A further stream uses three players whose weights are constructed so that the f32 product depends on the multiplication order around natural thresholds, in all six player orders. Thorough adds all 24 relabellings for a sample.",
+   text="Generated suit-asymmetric configurations (flush-prone flops, single-suit ranges, pools, a mirrored player for ties, >255-combo ranges beside narrow ones) are evaluated three times (in half of the cases with all three enumerations alive side by side on one thread, their next() calls taken in turn): as given, with one of the 23 non-identity suit permutations applied to flop and ranges, and with the players permuted; integer tallies wins[player][k-way] must be equal resp. permuted, and in every showdown flagged winners == winner_len >= 1. A further stream uses three players whose weights are constructed so that the f32 product depends on the multiplication order around natural thresholds, in all six player orders. Thorough adds all 24 relabellings for a sample.",
    note="Trusted: nothing beyond the relation itself (no reference evaluator is involved); category lookup for the non-triviality rule uses the harness's class table.",
    ref="DESIGN.md section 4 (C11)"),
  "C12": dict(
    technique="exhaustive pattern enumeration inside one rank pair + proptest almost-complete patterns, differential against a split model",
    category="exploration",
-   text="Every absent/weight-a/weight-b pattern of the combos of a rank pair - all 3^6 x 13 pockets, 3^4 x 78 suited, 3^12 x 6 (quick) / 78 (thorough) offsuit - in a background of neighbouring rank pairs (also with +0.0/-0.0 as the two weights), biased almost-complete offsuit patterns over all 78 pairs with arbitrary weights, and row-pattern ranges: rank_pairs() must equal the model's complete cells in both directions with bit-equal weights, orphan_card_pairs() the model's leftovers, and every combo be covered exactly once. Long per-thread histories (a rank pair queried complete, about 240 or about 65,510 unrelated queries, then 48 queries of the pair with one combo missing) cover dependence on earlier calls, including wrap points of 8- and 16-bit call counters.",
+   text="Every absent/weight-a/weight-b pattern of the combos of a rank pair - all 3^6 x 13 pockets, 3^4 x 78 suited, 3^12 x 6 (quick) / 78 (thorough) offsuit - in a background of neighbouring rank pairs (also with +0.0/-0.0 as the two weights), biased almost-complete offsuit patterns over all 78 pairs with arbitrary weights, and row-pattern ranges: rank_pairs() must equal the model's complete cells in both directions with bit-equal weights, orphan_card_pairs() the model's leftovers, and every combo be covered exactly once. Long per-thread histories (a rank pair queried complete, about 240 or about 65,510 unrelated queries, then 48 queries of the pair with one combo missing) cover dependence on earlier calls, including wrap points of 8- and 16-bit call counters. Ranges with about 300 distinct weights (every rank pair its own) are included.",
    note="Trusted: the harness's cell/split model. Weights finite and non-negative; -0.0 is the same weight as +0.0 (f32 equality).",
    ref="DESIGN.md section 4 (C12)"),
  "C13": dict(
@@ -92,7 +92,7 @@ BUILT = {
  "C15": dict(
    technique="proptest model-based interleaving histories on one thread + sampled thread schedules and iterator hand-over in an isolated binary with compile-time Send/Sync assertions",
    category="exploration",
-   text="Generated schedules of next() calls over 1-6 live evaluators (identical ones, same inputs with different scopes, bursts, finish-then-resume, dropping an iterator mid-run and starting a fresh one) must give every evaluator exactly the sequence it gives alone; this is deterministic, shrinks and replays. Thread rounds (1-19 evaluators behind a barrier, moved evaluators, Arc-shared ranges, showdowns sent through channels, iterators handed over mid-run to a thread that interleaves them with its own evaluator, 4-16 simultaneous long drains) sample OS schedules. Schedules also build evaluators with an invalid board (fourth card, duplicate flop card, two cards) under catch_unwind and batches of about 250 or 65,500 short-lived evaluators, after which the case's evaluators are restarted. Send+Sync for the public types is asserted at compile time in the isolated binary; a compile failure there is reported as a violation.",
+   text="Generated schedules of next() calls over 1-6 live evaluators (identical ones, same inputs with different scopes, bursts, finish-then-resume, dropping an iterator mid-run and starting a fresh one) must give every evaluator exactly the sequence it gives alone; this is deterministic, shrinks and replays. Thread rounds (1-19 evaluators behind a barrier, moved evaluators, Arc-shared ranges, showdowns sent through channels, iterators handed over mid-run to a thread that interleaves them with its own evaluator, 4-16 simultaneous long drains) sample OS schedules. Schedules also build evaluators with an invalid board (fourth card, duplicate flop card, two cards) under catch_unwind and batches of about 250 or 65,500 short-lived evaluators, after which the case's evaluators are restarted. Half of the thread cases begin with a cold round in which the concurrent evaluators are the first the process creates. Send+Sync for the public types is asserted at compile time in the isolated binary; a compile failure there is reported as a violation.",
    note="OS schedules are sampled, not controlled (the crate has no synchronisation to instrument). Sequence equality relies on deterministic HashMap iteration for identically constructed ranges (FxHash, no random state).",
    ref="DESIGN.md section 4 (C15)"),
  "C16": dict(
@@ -139,13 +139,13 @@ man = {
     },
     "engines": [
         {"name": "espada_verif", "path": "/verif/harness", "serves_properties": [c["property_id"] for c in checks if c["engine"] == "espada_verif"],
-         "kind_free_text": "Rust harness crate (proptest 1.11 as a library, enumerating generators, model oracles, replay files); espada is a cargo path dependency on /repo so every run rebuilds the current working tree; helper binaries c08_child (3 profiles: release, dbgchk, optchk) and c15_threads; each check runs against three builds of espada (release, debug profile, release for the x86-64-v3 CPU level)"},
+         "kind_free_text": "Rust harness crate (proptest 1.11 as a library, enumerating generators, model oracles, replay files); espada is a cargo path dependency on /repo so every run rebuilds the current working tree; helper binaries c08_child (3 profiles: release, dbgchk, optchk) and c15_threads; each check runs against up to five builds of espada (release, debug profile, release for each x86-64 level v2/v3/v4 the CPU has)"},
         {"name": "c16_scopes", "path": "/verif/harness/src/bin/c16_scopes.rs", "serves_properties": ["C16"],
          "kind_free_text": "isolated binary of the same crate that #[path]-includes /repo/examples/multi-thread/scope.rs"},
     ],
     "checks": checks,
     "not_applicable": [{"property_id": p, "reason": "check not built yet (framework under construction; the design in DESIGN.md section 4 applies)"} for p in ALL if p not in BUILT],
-    "notes": "Driver: ./check <ID> <quick|thorough> | ./check <ID> --replay <file>. Exit 0 held / 1 violation (VIOLATION line) / 2 inconclusive. VERIF_SEED selects the proptest seeds. Every run first replays the committed regression cases of its property (regressions/), then runs the release-build streams, then (except C01/C07 quick, and C08 which always runs both profiles) a scaled-down replica against a debug-profile build of espada (evidence/<ID>.debug_profile.json) and one against a release build for -C target-cpu=x86-64-v3 (evidence/<ID>.cpu_v3.json; skipped with a note where the CPU lacks that level) - code under #[cfg(target_feature)] or debug_assert!/overflow checks exists in one build only; --replay re-runs a case that holds in the release build in the other two builds; thorough additionally runs the libFuzzer campaigns where a target exists.",
+    "notes": "Driver: ./check <ID> <quick|thorough> | ./check <ID> --replay <file>. Exit 0 held / 1 violation (VIOLATION line) / 2 inconclusive. VERIF_SEED selects the proptest seeds. Every run first replays the committed regression cases of its property (regressions/), then runs the release-build streams, then (except C01/C07 quick, and C08 which always runs both profiles) a scaled-down replica against a debug-profile build of espada (evidence/<ID>.debug_profile.json) and one against a release build for each of -C target-cpu=x86-64-v2, -v3, -v4 (evidence/<ID>.cpu_v2|v3|v4.json; a level the CPU lacks is skipped with a note) - code under #[cfg(target_feature)] or debug_assert!/overflow checks exists in one build only; --replay re-runs a case that holds in the release build in the other builds; thorough additionally runs the libFuzzer campaigns where a target exists.",
 }
 json.dump(man, open("/verif/MANIFEST.json", "w"), indent=1)
 print("wrote MANIFEST.json with", len(checks), "checks")
